@@ -330,6 +330,22 @@ impl Sut for GCounter<A> {
     }
     fn reads(&self, _a: &mut Args, t: &mut Out) {
         t.call("gcounter.read", &[sx(self), self.read().to_string()]);
+        // totals near 2^64 on three or four actors: the sum exceeds 64 bits more than once
+        {
+            let mut big = GCounter::<A>::new();
+            let n = 3 + (self.read().to_string().len() as u64 % 2);
+            for actor in 0..n {
+                big.apply(Dot::new(actor, u64::MAX - actor));
+            }
+            t.call("gcounter.bigread", &[sx(&big), big.read().to_string()]);
+            let mut pn = PNCounter::<A>::new();
+            for actor in 0..n {
+                pn.apply(pn.inc_many(actor, u64::MAX - 2 * actor));
+            }
+            pn.apply(pn.dec_many(1, u64::MAX - 7));
+            let pnv = serde_json::to_value(&pn).unwrap();
+            t.call("pncounter.bigread", &[crate::sx(&pnv["p"]), crate::sx(&pnv["n"]), pn.read().to_string()]);
+        }
     }
     fn extra(&self, _o: &Self, a: &mut Args, t: &mut Out) {
         // validate_merge accepts every pair of states (C17)
